@@ -678,27 +678,45 @@ func (e *Exec) doReturn(r *ssa.Return, st *State) {
 	if e.fc == nil {
 		return
 	}
-	// ghost updates take effect at the return
-	for _, gu := range e.fc.Ghosts {
-		gu := gu
+	// ghost updates take effect at the return, simultaneously
+	if len(e.fc.Ghosts) > 0 {
 		before := st.clone()
 		genv := e.newEnv(before, e.entry)
 		genv.results = vals
 		genv.resultNames = resultNames(e.fn)
-		m := e.ctx.family(st, "ghost:"+gu.Map, I64)
-		st.mems["ghost:"+gu.Map] = m.Lambda(func(addr *Term) *Term {
-			ev := *genv
-			ev.vars = map[string]Value{gu.Var: Scalar{addr}}
-			return e.toI64(ev.eval(gu.Expr))
-		})
+		genv.block = r.Block()
+		for _, gu := range e.fc.Ghosts {
+			gu := gu
+			m := e.ctx.family(st, "ghost:"+gu.Map, I64)
+			st.mems["ghost:"+gu.Map] = m.Lambda(func(addr *Term) *Term {
+				ev := *genv
+				ev.vars = map[string]Value{gu.Var: Scalar{addr}}
+				return e.toI64(ev.eval(gu.Expr))
+			})
+		}
 	}
 	env := e.newEnv(st, e.entry)
 	env.results = vals
 	env.resultNames = resultNames(e.fn)
 	for k, cl := range e.fc.Ensures {
-		env.polarity = polProve
-		g := env.evalBool(cl.Expr)
-		e.addObl("post", clauseLabel(cl, k), cl.Text, e.fc.clauseProps(cl), st, g, r.Pos())
+		parts := e.splitConj(env, cl.Expr, nil, 0)
+		for pi, pt := range parts {
+			env.polarity = polProve
+			pe := *env
+			pe.vars = pt.vars
+			pe.site = pt.site
+			if pt.pkg != nil {
+				pe.pkg = pt.pkg
+			}
+			g := pe.evalBool(pt.x)
+			label := clauseLabel(cl, k)
+			text := cl.Text
+			if len(parts) > 1 {
+				label = fmt.Sprintf("%s.%d", label, pi+1)
+				text = pt.x.String() + "   [part of: " + cl.Text + "]"
+			}
+			e.addObl("post", label, text, e.fc.clauseProps(cl), st, g, r.Pos())
+		}
 	}
 	if e.fc.HasModifies {
 		e.frameObligations(st, r.Pos())
@@ -793,4 +811,52 @@ func (e *Exec) stringID(s string) *Term {
 		stringIDs[s] = id
 	}
 	return ConstI(id, Ref)
+}
+
+type conjPart struct {
+	x    *SExpr
+	vars map[string]Value
+	site bool
+	pkg  *types.Package
+}
+
+// splitConj flattens top-level conjunctions (looking through predicate applications) so that
+// each conjunct becomes its own obligation: smaller queries and precise failure reports.
+func (e *Exec) splitConj(env *Env, x *SExpr, vars map[string]Value, depth int) []conjPart {
+	if vars == nil {
+		vars = env.vars
+	}
+	mk := func(y *SExpr) []conjPart {
+		return []conjPart{{x: y, vars: vars, site: env.site, pkg: env.pkg}}
+	}
+	if x.Kind == SBinary && x.Op == "&&" {
+		return append(e.splitConj(env, x.Args[0], vars, depth), e.splitConj(env, x.Args[1], vars, depth)...)
+	}
+	if x.Kind == SCall && depth < 3 {
+		var pd *PredDef
+		f := x.Args[0]
+		sub := *env
+		sub.vars = vars
+		if f.Kind == SIdent {
+			pd = sub.lookupPred(f.Name)
+		} else if f.Kind == SSel && f.Args[0].Kind == SIdent {
+			if pk := sub.lookupPkg(f.Args[0].Name); pk != nil {
+				pd = e.C.Preds[pk.Path()+"."+f.Name]
+			}
+		}
+		if pd != nil && len(x.Args)-1 == len(pd.Params) {
+			nv := map[string]Value{}
+			for i, a := range x.Args[1:] {
+				nv[pd.Params[i]] = sub.eval(a)
+			}
+			penv := sub
+			penv.site = true
+			if pk := e.P.SPkgs[pd.Pkg]; pk != nil {
+				penv.pkg = pk.Pkg
+			}
+			parts := e.splitConj(&penv, pd.Body, nv, depth+1)
+			return parts
+		}
+	}
+	return mk(x)
 }
